@@ -332,6 +332,9 @@ def run(prog, chk, tier):
     # the ciphertext must sit where the directory says: addresses advance by the stored (padded) length, not by the content length
     if bf3.rule_writer_layout(m, chk, "C06"):
         bf3.writer_rules(m, chk, "C06", want={"absolute-addresses", "length-prefix"})
+    # ... and the whole of it must reach the file: the hex lines of the text envelope cover all of the image (a last byte that is not written is a ciphertext
+    # that does not decrypt to the original)
+    bf3.envelope_writer_rules(m, chk, "C06")
     no_plaintext_fallback(prog, chk, "C06")
     secrecy_taint(prog, chk, "C06")
     adapter.adapter_rules(prog, chk, "C06", want={"encrypt", "decrypt", "fresh-mode"})
